@@ -138,10 +138,13 @@ func c11Run(c c11Case) (out Outcome) {
 	case "decompress":
 		stage = "decompressCellblocks"
 		if _, st, _ := wire.ReadBlocks(c.Raw); st.MaxDeclaredBlock > 2<<20 {
-			out.Labels = append(out.Labels, "excluded_oversized")
-			return out
+			out.Labels = append(out.Labels, "declares_oversized_block")
 		}
+		a0 := totalAlloc()
 		region.VerifDecompressCellblocks(compression.New("snappy"), exactCap(c.Raw))
+		if d := totalAlloc() - a0; d > allocBudget(len(c.Raw)) {
+			return viol("alloc-bomb@decompress", "decompressing a stream of %d bytes allocated %d MiB: a length declared inside the data is trusted before it is checked against the data", len(c.Raw), d>>20)
+		}
 		out.NonTrivial = len(c.Raw) >= 8
 		return out
 	}
@@ -337,8 +340,7 @@ func c11Run(c c11Case) (out Outcome) {
 		// a declared block length above 2 MiB only costs memory and time (resource
 		// exhaustion is outside the statement): counted and skipped
 		if _, st, _ := wire.ReadBlocks(cb); st.MaxDeclaredBlock > 2<<20 {
-			out.Labels = append(out.Labels, "excluded_oversized")
-			return out
+			out.Labels = append(out.Labels, "declares_oversized_block")
 		}
 	}
 	callID := uint32(7)
@@ -399,8 +401,7 @@ func c11Run(c c11Case) (out Outcome) {
 		// exclusion as above, on the bytes the reader will actually hand to the decompressor
 		if tail := c11CellblockOf(frame); len(tail) > 0 {
 			if _, st, _ := wire.ReadBlocks(tail); st.MaxDeclaredBlock > 2<<20 {
-				out.Labels = append(out.Labels, "excluded_oversized")
-				return out
+				out.Labels = append(out.Labels, "declares_oversized_block")
 			}
 		}
 	}
@@ -433,6 +434,7 @@ func c11Run(c c11Case) (out Outcome) {
 		}(i, call)
 	}
 	doneCh := make(chan region.VerifReceiveResult, 1)
+	alloc0 := totalAlloc()
 	go func() {
 		doneCh <- region.VerifReceiveAfter(calls, asMulti, codec, 7, frame, func() {
 			for _, cancel := range abandon {
@@ -456,6 +458,10 @@ func c11Run(c c11Case) (out Outcome) {
 			out.Labels = append(out.Labels, "inconclusive_receive_slow")
 			return out
 		}
+	}
+	if d := totalAlloc() - alloc0; d > allocBudget(len(frame)) {
+		close(stop)
+		return viol("alloc-bomb@receive", "receiving a frame of %d bytes (snappy=%v) allocated %d MiB: a length declared inside the data is trusted before it is checked against the data", len(frame), codec != nil, d>>20)
 	}
 	// give drainers a moment to pick up buffered results
 	for i := 0; i < 100; i++ {
